@@ -33,3 +33,5 @@ import PyYetiVerif.Props.C16Psd
 #print axioms PyYetiVerif.C16.peak_is_factor_times_rms
 #print axioms PyYetiVerif.C16.meansquare_is_linear
 #print axioms PyYetiVerif.C16.psd_recovery_is_peak_extreme
+#print axioms PyYetiVerif.C16.uf_split_full_routine
+#print axioms PyYetiVerif.C16.stat_ext_sanity
